@@ -108,6 +108,8 @@ QUICK = {"C01": ["SQ1", "SQ3", "A", "E", "E3b"], "C02": ["E", "E3q", "A", "S"], 
 SMALL = ["SQ3", "SQ5", "SQ6", "SB", "RX", "RA", "E3b"]
 for _p in QUICK:
     QUICK[_p] = QUICK[_p] + [f for f in SMALL if f not in QUICK[_p]]
+# C07 executes every step five times (three repetitions, a second instance, a restarted instance): fewer worlds
+QUICK["C07"] = ["R", "RX", "A", "SQ3", "SQ6", "SB", "RA", "E3b"]
 THOROUGH = {"C01": ["SX", "E", "EL", "S", "A", "B"], "C02": ["SX", "E", "E3q", "EL", "A", "S"], "C03": ["SX", "E", "EL", "S", "A"],
             "C04": ["SX", "SQ3", "SQ5", "S", "A", "B"], "C05": ["SX", "SQ3", "SQ5", "S", "A", "B"], "C06": ["SX", "RX", "E", "B", "R", "S"],
             "C07": ["SX", "RX", "R", "S", "A"], "C08": ["RX", "RA", "SX", "R"], "C16": ["SX", "RX", "SQ3", "S", "A", "R", "B"]}
